@@ -88,6 +88,7 @@ def run(prog, chk):
     for what, nodes in (('cycle test', finds), ('cache test', cache_conds), ('stack push', push), ('cache insert', ins), ('order push', opush)):
         ok = bool(nodes) and all(uses_canon(n.e) for n in nodes)
         chk.ob('R19.1', lm, nodes[0].ln if nodes else lm.ln, ok, '%s must use the canonicalised path' % what, key='canon:' + what)
+    _file_identity(prog, chk, lm)
     # b. cycle test throws Semantic and precedes cache test
     for c in cyc_conds:
         cp = SX.cmp_parts(c.e)
@@ -107,6 +108,20 @@ def run(prog, chk):
     chk.ob('R19.1', lm, push[0].ln, all(g.must_precede(cache_conds, p) and g.must_precede(cyc_conds, p) for p in push), 'stack push only after cycle and cache tests', key='tests-before-push')
     chk.ob('R19.1', lm, parse[0].ln, all(g.must_precede(push, x) for x in parse + rec_calls), 'module is on the DFS stack before it is parsed and before any import is followed', key='push-before-recursion')
     chk.ob('R19.1', lm, push[0].ln, all(g.must_follow(p, pop) for p in push), 'stack push is popped on every normal path', key='push-pop')
+    # d'. a loader that is used again starts from nothing: every member loadModule fills is emptied in load() before the first module is
+    # loaded (a load that stopped with an error leaves its modules on the DFS stack — the pop is on normal paths only — and the next load
+    # would report an import cycle that is not there, or serve the previous run's modules)
+    gl = prog.cfg(ld)
+    first = [c for c in gl.calls(lambda e: e['k'] == 'mcall' and e['callee'] == lm.name)]
+    chk.count('loadModule calls in load()', len(first), 1)
+    for role, mem in (('DFS stack', stack), ('module cache', cache), ('load order', order)):
+        if not mem:
+            continue
+        clr = [c for c in gl.calls(lambda e: e['k'] == 'mcall' and SX.short(e['callee']) == 'clear' and _m(e.get('obj'), mem))]
+        clr += [n for n, l, r, op in gl.writes() if op == '=' and _m(l, mem) and SX.is_node(SX.strip(r)) and SX.strip(r).get('k') in ('construct', 'initlist') and not SX.real_args(SX.strip(r))]
+        ok = bool(clr) and all(gl.must_precede(clr, c) for c in first)
+        chk.ob('R19.1', ld, clr[0].ln if clr else ld.ln, ok, 'load() empties the %s (%s) before the first module is loaded, so a loader that is used again (also after a load that failed) starts '
+               'from nothing' % (role, mem), key='reset:' + role.replace(' ', '-'))
     # e. each recursive load is followed by the package comparison (mismatch throws)
     pk_conds = [n for n in g.nodes if n.kind == 'cond' and any(x['k'] == 'member' and x['name'] == 'packageParts' for x in SX.walk(n.e)) and SX.cmp_parts(n.e)]
     # … the comparison may live in a local closure or a helper function that performs it on every path (`requirePackage(imp, target)`)
@@ -272,6 +287,42 @@ def run(prog, chk):
     incs = [n for n, l, r, op in gl.writes() if op == '++' and any(SX.is_node(SX.strip(l)) and SX.strip(l).get('id') == v['id'] for v in cnt)]
     okc = bool(incs) and all(any(pol and '"main"' in SX.show(ce) for ce, pol, _ in gl.guards(n)) for n in incs)
     chk.ob('R19.5', ld, ld.ln, okc, 'main counter is incremented exactly for functions named "main"', key='main-count')
+
+
+
+def _file_identity(prog, chk, lm):
+    """R19.1 — the key under which a module is cached, cycle-tested and recorded names the file, not a spelling of its path: the loader's
+    canonicalisation resolves the path through the file system (`canonical` / `weakly_canonical`: links and `..` through links followed),
+    and a lexical normalisation is returned only where the file system reported an error.  With a lexical key one file reached under
+    two spellings (a linked directory among the search roots) is loaded twice and its classes arrive twice in the merged program."""
+    cands = [t for c in SX.walk(lm.body) if c.get('k') in ('call', 'mcall') and SX.short(SX.callee(c) or '') == 'canonicalize' for t in prog.resolve(c)]
+    cands = [t for t in cands if t.body]
+    if not cands:
+        raise AnalysisBroken('canonicalisation function not resolved')
+    f = cands[0]
+    g = prog.cfg(f)
+    FS = ('std::filesystem::canonical', 'std::filesystem::weakly_canonical')
+    res = {}       # local id → initialised from a file-system resolution
+    for n in g.nodes:
+        if n.kind == 'decl' and SX.is_node(n.e.get('init')) and any(x.get('k') == 'call' and (SX.callee(x) or '') in FS for x in SX.walk(n.e['init'])):
+            res[n.e['id']] = n
+
+    def resolved(e):
+        return any((x.get('k') == 'call' and (SX.callee(x) or '') in FS) or (x.get('k') == 'ref' and x.get('id') in res) for x in SX.walk(e))
+    rets = [n for n in g.nodes if n.kind == 'return']
+    good = [n for n in rets if SX.is_node(n.e) and resolved(n.e)]
+    # the value of a return node sits in the nodes just before it when the CFG splits the expression: look at the statement
+    if not good:
+        for st in SX.walk(f.body, into_lambdas=False):
+            if st.get('k') == 'return' and SX.is_node(st.get('e')) and resolved(st['e']):
+                good += [n for n in rets if n.ln == st.get('ln')]
+    err = [n for n in g.nodes if n.kind == 'edge' and n.pol and SX.is_node(n.e) and n.e.get('k') == 'mcall' and SX.short(n.e.get('callee', '')) == 'operator bool'
+           and 'error_code' in (SX.strip(n.e.get('obj')) or {}).get('t', '')]
+    plain = g.reachable([g.entry], avoid=err)
+    lexical = [n for n in rets if n not in good and n.id in plain]
+    chk.ob('R19.1', f, good[0].ln if good else f.ln, bool(good) and not lexical,
+           '%s returns the path as the file system resolves it (canonical / weakly_canonical); a purely lexical spelling is returned only after the file system reported an error%s'
+           % (f.short, (' (line %s returns one without)' % lexical[0].ln) if lexical else ''), key='file-identity')
 
 
 def _prefers_bloch(e, partsid):
